@@ -231,6 +231,19 @@ func (m *Model) Step(t tabular.Table, op Op) {
 		}
 		sr := src[mod(op.Ref, len(src))]
 		j := mod(op.Cap, len(sr.Cells))
+		if op.Ref%2 != 0 {
+			// prefer a cell whose item can be mutated later (two cells then share one mutable item)
+		search:
+			for _, r := range src {
+				for k := range r.Cells {
+					switch r.Cells[k].It.K {
+					case "if", "ifp", "psx", "ints":
+						sr, j = r, k
+						break search
+					}
+				}
+			}
+		}
 		dr := dst[mod(op.To, len(dst))]
 		cells := sr.Real.Cells()
 		dr.Real.Add(cells[j])                    // by value
@@ -248,18 +261,26 @@ func (m *Model) Step(t tabular.Table, op Op) {
 			m.Noops++
 			return
 		}
-		var cand []*MRow
+		// among the cells whose item can be mutated at all
+		type at struct {
+			r *MRow
+			j int
+		}
+		var cand []at
 		for _, r := range m.All {
-			if len(r.Cells) > 0 {
-				cand = append(cand, r)
+			for j := range r.Cells {
+				switch r.Cells[j].It.K {
+				case "if", "ifp", "psx", "ints":
+					cand = append(cand, at{r, j})
+				}
 			}
 		}
 		if len(cand) == 0 {
 			m.Noops++
 			return
 		}
-		r := cand[mod(op.Ref, len(cand))]
-		j := mod(op.Cap, len(r.Cells))
+		pick := cand[mod(op.Ref*5+op.Cap, len(cand))]
+		r, j := pick.r, pick.j
 		mc := &r.Cells[j]
 		if !Mutate(mc.Live, mc.It, op.Items[0]) {
 			m.Noops++
